@@ -14,13 +14,13 @@ import (
 	f3 "github.com/filecoin-project/go-f3"
 	"github.com/filecoin-project/go-f3/gpbft"
 	"github.com/filecoin-project/go-f3/internal/clock"
+	"github.com/filecoin-project/go-f3/internal/psutil"
 	"github.com/filecoin-project/go-f3/manifest"
 	"github.com/filecoin-project/go-f3/verifharness/vcrypto"
 	"github.com/filecoin-project/go-f3/verifharness/vds"
 	"github.com/filecoin-project/go-f3/verifharness/vec"
 	"github.com/filecoin-project/go-f3/verifharness/vev"
 	"github.com/filecoin-project/go-f3/verifharness/vgen"
-	"github.com/filecoin-project/go-f3/internal/psutil"
 	pubsub "github.com/libp2p/go-libp2p-pubsub"
 	pubsub_pb "github.com/libp2p/go-libp2p-pubsub/pb"
 	"github.com/libp2p/go-libp2p/core/peer"
@@ -246,7 +246,9 @@ func TestC12Node(t *testing.T) {
 			if err != nil {
 				t.Fatalf("HARNESS: observer gossipsub: %v", err)
 			}
-			_ = ops.RegisterTopicValidator(rec.topic, func(context.Context, peer.ID, *pubsub.Message) pubsub.ValidationResult { return pubsub.ValidationAccept })
+			_ = ops.RegisterTopicValidator(rec.topic, func(context.Context, peer.ID, *pubsub.Message) pubsub.ValidationResult {
+				return pubsub.ValidationAccept
+			})
 			otopic, err := ops.Join(rec.topic, pubsub.WithTopicMessageIdFn(psutil.GPBFTMessageIdFn))
 			if err != nil {
 				t.Fatalf("HARNESS: observer join: %v", err)
@@ -324,10 +326,10 @@ func TestC12Node(t *testing.T) {
 			case "broadcast":
 				sender := uint64(rapid.IntRange(1, 2).Draw(t, "sender"))
 				p := gpbft.Payload{
-					Instance: uint64(rapid.IntRange(0, 2).Draw(t, "instance")),
-					Round:    uint64(rapid.SampledFrom([]int{0, 0, 1, 1, 6, 7, 13}).Draw(t, "round")),
-					Phase:    gpbft.Phase(rapid.SampledFrom([]int{1, 3, 4, 4}).Draw(t, "phase")),
-					Value:    values[rapid.IntRange(0, 1).Draw(t, "value")],
+					Instance:         uint64(rapid.IntRange(0, 2).Draw(t, "instance")),
+					Round:            uint64(rapid.SampledFrom([]int{0, 0, 1, 1, 6, 7, 13}).Draw(t, "round")),
+					Phase:            gpbft.Phase(rapid.SampledFrom([]int{1, 3, 4, 4}).Draw(t, "phase")),
+					Value:            values[rapid.IntRange(0, 1).Draw(t, "value")],
 					SupplementalData: gpbft.SupplementalData{PowerTable: vgen.DetCid("c12supp")},
 				}
 				// shapes that need no justification, so that the node's own validator lets them out
